@@ -58,6 +58,6 @@ def main(run, replay=None):
     run.exhaustive = thorough
     run.assumptions = [
         "same function = bit-identical forward, inverse, log_prob, transform_to_noise and fixed-seed sample on probe inputs in evaluation mode",
-        "checkpoint protocols (Reload.tla): 288 combinations of source history, destination mode / smoke runs before the load, route (direct, through a container, a plain dict without _metadata) and train()/eval() afterwards; quick tier: 14 protocols per model, thorough: all",
+        "checkpoint protocols (Reload.tla): 1152 combinations of source history, destination mode / smoke runs before the load, route (direct, through a container, a plain dict without _metadata), train()/eval() afterwards and evaluation-mode use after the load; quick tier: 14 protocols per model, thorough: 300 (the protocols that end in a conversion to double precision are run by C19)",
         "the fresh model is built by the same zoo constructor under a different torch seed and with differently perturbed parameters",
     ]
